@@ -86,6 +86,25 @@ class SymArr(_np.ndarray):
             return self
         return _np.asarray(self).astype(dtype, *a, **kw)
 
+    def var(self, *a, **kw):
+        """Variance of a symbolic vector is only used as an 'all values equal?' test (|var| < 1e-6).
+        Modelled: 0 when max == min (decided by the solver), otherwise the run ASSUMES the spread is >= 0.5 and returns the
+        sound lower bound spread^2 / (2 n) evaluated at 0.5 (a constant > 1e-6 for n < 1e5)."""
+        flat = list(_np.asarray(self).ravel())
+        lo = hi = flat[0]
+        for v in flat[1:]:
+            if bool(v < lo):
+                lo = v
+            if bool(v > hi):
+                hi = v
+        if bool(hi - lo == 0):
+            return 0.0
+        if core.EX is not None and not getattr(core.EX, "lift_mode", False):
+            core.EX.assume(hi - lo >= 0.5)
+            return 0.125 / len(flat)
+        vals = [float(core.lift(v).const_value()) for v in flat]
+        return float(_np.var(vals))
+
 
 def _wrap(a):
     if isinstance(a, _np.ndarray) and a.dtype == object and not isinstance(a, SymArr):
